@@ -7,6 +7,14 @@ at the key only:  cmp = less|dflt, greater, mod3 (key%3);  eq = eq|dflt, eqmod (
 over the keys.  `a=[..] f= l=` is the storage and the range in it (context elements have key 7),
 `b=[..]` a second range (whole list), iterator results are printed as indices into `a`.
 Positions the standard leaves unspecified are printed as `_` by all four sides.
+
+Algorithms that write through an output iterator get a destination storage built by `mkDest`:
+`dp` context elements 800.., then the window the caller provides — exactly as many positions as the
+standard's result needs plus `slack` — filled with -1,-2,.., then one context element 899.  They print
+`r=<returned output iterator as an index into the destination> d=<the whole destination>`; the model is
+run with the window `[dp, dp+room)`, so a write outside it is `oob`.  For unique_copy `it=in|fwd` means a
+pure output iterator (value-copy branch), `it=ptr|bidi` a pointer destination (read-back branch).
+The needle of search / find_end / find_first_of is the range `[g,h)` of `b` (default: all of `b`).
 -/
 import Tetl.Proto
 import Tetl.C06.Model
@@ -56,6 +64,10 @@ structure Args where
   ov : String
   op : String
   init : Int
+  dp : Nat
+  slack : Nat
+  g : Nat
+  h : Nat
 
 def getArgs (ln : Line) : Args :=
   let a := (ln.list? "a").getD []
@@ -63,7 +75,9 @@ def getArgs (ln : Line) : Args :=
     m := (ln.nat? "m").getD 0, d := (ln.nat? "d").getD 0, n := (ln.int? "n").getD 0, v := (ln.int? "v").getD 0,
     w := (ln.int? "w").getD 0, p := (ln.nat? "p").getD 0, cmp := (ln.str? "cmp").getD "dflt",
     eq := (ln.str? "eq").getD "dflt", it := (ln.str? "it").getD "ptr", ov := (match ln.get? "ov" with | some (.int i) => toString i | some (.str s) => s | _ => ""),
-    op := (ln.str? "op").getD "dflt", init := (ln.int? "init").getD 0 }
+    op := (ln.str? "op").getD "dflt", init := (ln.int? "init").getD 0,
+    dp := (ln.nat? "dp").getD 0, slack := (ln.nat? "slack").getD 0,
+    g := (ln.nat? "g").getD 0, h := (ln.nat? "h").getD ((ln.list? "b").getD []).length }
 
 /-- canonical form of an unstable sort result: classes in order, the elements as a multiset, the context -/
 def canonSort (cmp : String) (a : List E) (f l : Nat) : String :=
@@ -83,6 +97,11 @@ def canonPartition (a : List E) (f l r : Nat) : String :=
 
 def genF (k : Nat) : Int := 100 + 10 * Int.ofNat k
 
+/-- destination storage: `dp` context elements, a window of `room` positions, one context element -/
+def mkDest (dp room : Nat) : List E :=
+  (List.range dp).map (fun i => 800 + Int.ofNat i) ++ (List.range room).map (fun t => -1 - Int.ofNat t) ++ [899]
+def fmtOut (r : List E × Nat) : String := s!"r={r.2} d={fmtList r.1}"
+
 def numOp (s : String) : Int → Int → Int :=
   if s == "minus" then fun x y => x - y else if s == "mul2" then fun x y => 2 * x + y else fun x y => x + y
 
@@ -98,6 +117,12 @@ def step (_ : Unit) (ln : Line) : Unit × String :=
   let boo (m : Except Err Bool) (s : Bool) := out (fmtE fmtB m) (fmtB s)
   let lst (m : Except Err (List E)) (s : List E) := out (fmtE fmtList m) (fmtList s)
   let arr (m : Except Err (List E)) (s : List E) := out (fmtE (fun x => "a=" ++ fmtList x) m) ("a=" ++ fmtList (splice a f l s))
+  -- output-iterator algorithms: `run d dlo dhi` is the model, `s` the values the standard prescribes
+  let dst (run : List E → Nat → Nat → Except Err (List E × Nat)) (s : List E) :=
+    let room := s.length + g.slack
+    let D := mkDest g.dp room
+    out (fmtE fmtOut (run D g.dp (g.dp + room))) (fmtOut (splice D g.dp (g.dp + s.length) s, g.dp + s.length))
+  let outPtr := g.it == "ptr" || g.it == "bidi"
   match ln.op with
   | "find" => idx (find eqf g.v a f l) (Spec.findIdx (fun x => eqf x g.v) R)
   | "find_if" => idx (findIf p a f l) (Spec.findIdx p R)
@@ -107,7 +132,7 @@ def step (_ : Unit) (ln : Line) : Unit × String :=
   | "none_of" => boo (noneOf p a f l) (!R.any p)
   | "count" => out (fmtE fmtIdx (count eqf g.v a f l)) (fmtIdx (Spec.count (fun x => eqf x g.v) R))
   | "count_if" => out (fmtE fmtIdx (countIf p a f l)) (fmtIdx (Spec.count p R))
-  | "for_each" => lst (forEach a f l) R
+  | "for_each" => out (fmtE (fun (x : List E) => s!"{fmtList x} fn={x.length}") (forEach a f l)) s!"{fmtList R} fn={R.length}"
   | "for_each_n" =>
     out (fmtE (fun (r : Nat × List E) => s!"r={r.1} v={fmtList r.2}") (forEachN a f l g.n))
       s!"r={f + g.n.toNat} v={fmtList (R.take g.n.toNat)}"
@@ -136,10 +161,10 @@ def step (_ : Unit) (ln : Line) : Unit × String :=
     out (fmtE (fun (r : Nat × Nat) => s!"r={r.1},{r.2}") (equalRange lt g.v a f l))
       s!"r={f + Spec.lowerBound lt g.v R},{f + Spec.upperBound lt g.v R}"
   | "binary_search" => boo (binarySearch lt g.v a f l) (Spec.binarySearch lt g.v R)
-  | "search" => idx (search eqf a f l b) (Spec.search eqf R b)
-  | "find_end" => idx (findEnd eqf a f l b) (Spec.findEnd eqf R b)
+  | "search" => if !(g.g ≤ g.h && g.h ≤ h) then bad else idx (searchB eqf a f l b g.g g.h) (Spec.search eqf R (slice b g.g g.h))
+  | "find_end" => if !(g.g ≤ g.h && g.h ≤ h) then bad else idx (findEndB eqf a f l b g.g g.h) (Spec.findEnd eqf R (slice b g.g g.h))
   | "search_n" => idx (searchN eqf a f l g.n g.v) (Spec.searchN eqf R g.n g.v)
-  | "find_first_of" => idx (findFirstOf eqf a f l b) (Spec.findFirstOf eqf R b)
+  | "find_first_of" => if !(g.g ≤ g.h && g.h ≤ h) then bad else idx (findFirstOfB eqf a f l b g.g g.h) (Spec.findFirstOf eqf R (slice b g.g g.h))
   | "mismatch" =>
     let m := if g.ov == "4" then mismatch4 eqf a f l b 0 h else mismatch3 eqf a f l b 0 h
     let s := Spec.mismatch eqf R b
@@ -180,18 +205,24 @@ def step (_ : Unit) (ln : Line) : Unit × String :=
       else fmtList x
     out (fmtE (fun (r : List E × Nat) => s!"r={r.2} a={mk r.1}") (copyBackward a f l d))
       s!"r={d - n} a={mk (splice a (d - n) d R)}"
-  | "copy_if" => lst (copyIf p a f l) (R.filter p)
-  | "copy_n" => lst (copyN a f l g.n) (Spec.copyN R g.n)
-  | "remove_copy" => lst (removeCopy eqf g.v a f l) (Spec.remove (fun x => eqf x g.v) R)
-  | "remove_copy_if" => lst (removeCopyIf p a f l) (Spec.remove p R)
-  | "unique_copy" => lst (uniqueCopy eqf a f l) (Spec.unique eqf R)
-  | "reverse_copy" => lst (reverseCopy a f l) R.reverse
-  | "rotate_copy" => lst (rotateCopy a f g.m l) (Spec.rotate R (g.m - f)).1
-  | "transform" => lst (transform1 (fun x => x + 10) a f l) (R.map (fun x => x + 10))
-  | "transform2" => lst (transform2 (fun x y => x + 100 * y) a f l b 0 h) ((R.zip b).map (fun xy => xy.1 + 100 * xy.2))
+  | "copy_out" | "move_out" => dst (Out.copy a f l) R
+  | "copy_if" => dst (Out.copyIf p a f l) (R.filter p)
+  | "copy_n" => dst (Out.copyN a f l g.n) (Spec.copyN R g.n)
+  | "remove_copy" => dst (Out.removeCopy eqf g.v a f l) (Spec.remove (fun x => eqf x g.v) R)
+  | "remove_copy_if" => dst (Out.removeCopyIf p a f l) (Spec.remove p R)
+  | "unique_copy" => dst (if outPtr then Out.uniqueCopyFwd eqf a f l else Out.uniqueCopyOut eqf a f l) (Spec.unique eqf R)
+  | "reverse_copy" => dst (Out.reverseCopy a f l) R.reverse
+  | "rotate_copy" => dst (Out.rotateCopy a f g.m l) (Spec.rotate R (g.m - f)).1
+  | "transform" => dst (Out.transform1 (fun x => x + 10) a f l) (R.map (fun x => x + 10))
+  | "transform2" => dst (Out.transform2 (fun x y => x + 100 * y) a f l b 0 h) ((R.zip b).map (fun xy => xy.1 + 100 * xy.2))
   | "partition_copy" =>
-    out (fmtE (fun (r : List E × List E) => s!"{fmtList r.1}|{fmtList r.2}") (partitionCopy p a f l))
-      s!"{fmtList (R.filter p)}|{fmtList (R.filter (fun x => !p x))}"
+    let st := R.filter p
+    let se := R.filter (fun x => !p x)
+    let D1 := mkDest g.dp (st.length + g.slack)
+    let D2 := mkDest g.dp (se.length + g.slack)
+    let fmt2 (r : (List E × Nat) × (List E × Nat)) := s!"r={r.1.2},{r.2.2} d={fmtList r.1.1} e={fmtList r.2.1}"
+    out (fmtE fmt2 (Out.partitionCopy p a f l D1 g.dp (g.dp + st.length + g.slack) D2 g.dp (g.dp + se.length + g.slack)))
+      (fmt2 ((splice D1 g.dp (g.dp + st.length) st, g.dp + st.length), (splice D2 g.dp (g.dp + se.length) se, g.dp + se.length)))
   | "fill" => arr (fill a f l g.v) (R.map (fun _ => g.v))
   | "fill_n" =>
     out (fmtE (fun (r : List E × Nat) => s!"r={r.2} a={fmtList r.1}") (fillN a f l g.n g.v))
@@ -218,7 +249,7 @@ def step (_ : Unit) (ln : Line) : Unit × String :=
     let s := Spec.shiftRight R g.n
     let unspec (r : Nat) := if g.n ≤ 0 || g.n.toNat ≥ l - f then (r, r) else (f, r)
     let sa := if g.n ≤ 0 || g.n.toNat ≥ l - f then a else splice a f l (R.take s.2 ++ s.1)
-    out (fmtE (fun (r : List E × Nat) => s!"r={r.2} a={fmtMask r.1 (unspec r.2).1 (unspec r.2).2}") (shiftRight 0 a f l g.n))
+    out (fmtE (fun (r : List E × Nat) => s!"r={r.2} a={fmtMask r.1 (unspec r.2).1 (unspec r.2).2}") (if g.ov == "nd" then shiftRightNoFill a f l g.n else shiftRight 0 a f l g.n))
       s!"r={f + s.2} a={fmtMask sa (unspec (f + s.2)).1 (unspec (f + s.2)).2}"
   | "partition" =>
     let s := Spec.stablePartition p R
@@ -241,11 +272,11 @@ def step (_ : Unit) (ln : Line) : Unit × String :=
   | "stable_sort" | "insertion_sort" => arr (insertionSort lt a f l) (Spec.stableSort lt R)
   | "merge_sort" => arr (mergeSort lt a f l) (Spec.stableSort lt R)
   | "inplace_merge" => arr (inplaceMerge lt a f g.m l) (Spec.merge lt (R.take (g.m - f)) (R.drop (g.m - f)))
-  | "merge" => lst (merge lt a f l b 0 h) (Spec.merge lt R b)
-  | "set_difference" => lst (setDifference lt a f l b 0 h) (Spec.setDifference lt R b)
-  | "set_intersection" => lst (setIntersection lt a f l b 0 h) (Spec.setIntersection lt R b)
-  | "set_symmetric_difference" => lst (setSymmetricDifference lt a f l b 0 h) (Spec.setSymmetricDifference lt R b)
-  | "set_union" => lst (setUnion lt a f l b 0 h) (Spec.setUnion lt R b)
+  | "merge" => dst (Out.merge lt a f l b 0 h) (Spec.merge lt R b)
+  | "set_difference" => dst (Out.setDifference lt a f l b 0 h) (Spec.setDifference lt R b)
+  | "set_intersection" => dst (Out.setIntersection lt a f l b 0 h) (Spec.setIntersection lt R b)
+  | "set_symmetric_difference" => dst (Out.setSymmetricDifference lt a f l b 0 h) (Spec.setSymmetricDifference lt R b)
+  | "set_union" => dst (Out.setUnion lt a f l b 0 h) (Spec.setUnion lt R b)
   -- numeric
   | "accumulate" | "reduce" =>
     out (fmtE (fun (r : Int) => s!"r={r}") (accumulate (numOp g.op) g.init a f l)) s!"r={Spec.accumulate (numOp g.op) g.init R}"
@@ -256,10 +287,10 @@ def step (_ : Unit) (ln : Line) : Unit × String :=
   | "transform_reduce1" =>
     out (fmtE (fun (r : Int) => s!"r={r}") (transformReduce1 (numOp g.op) (fun x => 3 * x + 1) g.init a f l))
       s!"r={Spec.accumulate (numOp g.op) g.init (R.map (fun x => 3 * x + 1))}"
-  | "partial_sum" => lst (partialSum (numOp g.op) a f l) (Spec.partialSum (numOp g.op) R)
+  | "partial_sum" => dst (Out.partialSum (numOp g.op) a f l) (Spec.partialSum (numOp g.op) R)
   | "adjacent_difference" =>
     let op : Int → Int → Int := if g.op == "dflt" then fun x y => x - y else numOp g.op
-    lst (adjacentDifference op a f l) (Spec.adjacentDifference op R)
+    dst (Out.adjacentDifference op a f l) (Spec.adjacentDifference op R)
   | _ => bad
 
 end Tetl.C06.Driver
